@@ -78,6 +78,20 @@ class HookError(Exception):
     pass
 
 
+class FalsyCallable:
+    """A perfectly legal callback object that happens to be falsy (e.g. a queue-like recorder with __len__ == 0).
+    Code that tests `if hook:` / `hook or default` instead of `is not None` silently drops it."""
+
+    def __init__(self, fn):
+        self.fn = fn
+
+    def __call__(self, *a, **kw):
+        return self.fn(*a, **kw)
+
+    def __len__(self):
+        return 0
+
+
 class SpyBudget(Budget):
     def __init__(self, w, **kw):
         super().__init__(**kw)
@@ -296,7 +310,7 @@ class World:
         pre = f"c{self.callno}" if self.callno else ""
         kind = self.choice(f"{pre}o{i}", self.kinds)
         klass = None
-        if kind in ("exc", "res", "resnone"):
+        if kind in ("exc", "res", "resnone", "exc_same"):
             klass = self.choice(f"{pre}k{i}", self.classes)
         self.script[i] = (kind, klass)
         return (kind, klass)
@@ -323,8 +337,23 @@ class World:
             return None
         if kind == "exc":
             obj = fail_type(i)(i, klass)
+        elif kind == "exc_same":
+            # the very same exception instance as the previous failing attempt (e.g. a cached error object, or
+            # polling a failed Future); falls back to a fresh one on the first attempt
+            prev = self.objs.get(i - 1)
+            if prev is not None and prev[0] == "exc" and isinstance(prev[1], Fail):
+                obj = prev[1]
+                obj.klass = klass
+                obj.i = i
+            else:
+                obj = fail_type(i)(i, klass)
+            kind = "exc"
+        elif kind == "timeout_exc":
+            obj = TimeoutError(f"timeout#{i}")  # builtin; the world's classifier maps it to TRANSIENT
+            klass = EC.TRANSIENT
+            kind = "exc"
         elif kind == "abort_exc":
-            obj = AbortRetryError()
+            obj = redress.AbortRetry()  # the exported short name (documented alias of AbortRetryError)
         elif kind in BASE_KINDS:
             obj = BASE_KINDS[kind]()
         elif kind == "nested_exhausted":
@@ -364,7 +393,7 @@ class World:
             if f.get("at") in (None, f["count"]):
                 self.t(("hook_raises", "classifier"))
                 raise f["exc"]()
-        k = getattr(e, "klass", None) or EC.UNKNOWN
+        k = getattr(e, "klass", None) or (EC.TRANSIENT if isinstance(e, TimeoutError) else EC.UNKNOWN)
         if self.rclass_obj:
             c = Classification(klass=k, retry_after_s=self._retry_after(e))
             self.classifications[getattr(e, "i", None)] = c
@@ -455,7 +484,11 @@ class World:
         else:
             def bound(*a):
                 return fn(*a, level)
-        return bound
+        return self.wrap(bound)
+
+    def wrap(self, fn):
+        """params falsy=True: every user callback is handed over as a falsy callable object."""
+        return FalsyCallable(fn) if P(self.p, "falsy", False) else fn
 
     def _attempt_hook(self, which, ctx):
         self.hook_calls[which] = self.hook_calls.get(which, 0) + 1
@@ -515,10 +548,10 @@ class World:
     def call_kwargs(self, execute=False):
         kw = {}
         if self.hooks:
-            kw["on_metric"] = self.on_metric
-            kw["on_log"] = self.on_log
+            kw["on_metric"] = self.wrap(self.on_metric)
+            kw["on_log"] = self.wrap(self.on_log)
         if self.has_abort:
-            kw["abort_if"] = self.abort_if
+            kw["abort_if"] = self.wrap(self.abort_if)
         pl = self.place
         if pl:
             if pl["h_call"]:
@@ -529,11 +562,11 @@ class World:
                 kw["sleeper"] = self.at_level(self.asleeper if (self.is_async and pl["s_async"]) else self.sleeper, "call")
         else:
             if self.has_handler:
-                kw["sleep"] = self.handler
-            kw["sleeper"] = self.asleeper if self.is_async else self.sleeper
+                kw["sleep"] = self.wrap(self.handler)
+            kw["sleeper"] = self.wrap(self.asleeper if self.is_async else self.sleeper)
             if P(self.p, "before_sleep", False):
-                kw["before_sleep"] = (self.abefore_sleep if (self.is_async and P(self.p, "async_before_sleep", False))
-                                      else self.before_sleep)
+                kw["before_sleep"] = self.wrap(self.abefore_sleep if (self.is_async and P(self.p, "async_before_sleep", False))
+                                               else self.before_sleep)
         if P(self.p, "operation", None):
             kw["operation"] = self.p["operation"]
         if P(self.p, "attempt_hooks", False):
@@ -579,6 +612,15 @@ class World:
                               budget=rk.get("budget"))
             cls = {"retrycfg": Retry, "aretrycfg": AsyncRetry, "rpcfg": RetryPolicy, "arpcfg": AsyncRetryPolicy}[comp]
             target = cls.from_config(cfg, classifier=rk["classifier"])
+        elif comp in ("rpset", "arpset"):
+            # built with loose settings, then tightened by attribute assignment on the wrapper (it forwards to .retry)
+            loose = dict(rk, max_attempts=99, max_unknown_attempts=None, per_class_max_attempts=None, budget=None)
+            target = (RetryPolicy if comp == "rpset" else AsyncRetryPolicy)(**loose)
+            target.max_attempts = rk["max_attempts"]
+            target.max_unknown_attempts = rk["max_unknown_attempts"]
+            target.per_class_max_attempts = dict(rk["per_class_max_attempts"])
+            if "budget" in rk:
+                target.budget = rk["budget"]
         elif comp in ("deco", "adeco"):
             ck = self.call_kwargs()
             kw = dict(rk)
